@@ -98,6 +98,13 @@ Definition good_c10_res (c : cfg) (x : ist) : bool :=
   (if c_max_retries c =? 0 then g_res g =? 0 else Bool.eqb (reserved s) (g_res g =? 1)) &&
   implb' (cleaned s) (g_res g =? 0).
 
+(* C10: upstream streams (the pool's Requests resource / UpstreamRequestActive hang on them): a retry never starts while the
+   previous attempt's stream is still open, and once the request is over no stream is left open - except after TerminateStream,
+   which answers the client without resetting the upstream attempt (listed finding) *)
+Definition good_c10_streams (c : cfg) (x : ist) : bool :=
+  let s := i_st x in let g := i_gs x in
+  negb (g_leak g) && implb' (wdone s && cleaned s && negb (i_tm x) && negb (c_oneway c)) (negb (up_alive s)).
+
 (* C14 *)
 Definition good_c14 (c : cfg) (x : ist) : bool :=
   let s := i_st x in let g := i_gs x in
@@ -108,7 +115,7 @@ Definition good_c14 (c : cfg) (x : ist) : bool :=
 (* C17 retry part *)
 Definition good_c17 (src : srcp) (c : cfg) (x : ist) : bool :=
   let g := i_gs x in
-  (g_new g <=? 1 + budget src c)%nat && negb (g_new_after_start g) && negb (g_new_unchosen g).
+  (g_new g <=? 1 + budget src c)%nat && negb (g_new_after_start g) && negb (g_new_unchosen g) && negb (g_fin_bad g).
 
 (* C03 time-out liveness: a parked worker (not one-way, no defect pattern) is guarded by an armed timer, and from a parked state
    with the global timer armed and nothing else pending, the expiry followed by the worker's reaction yields the 504 hijack reply *)
@@ -123,7 +130,7 @@ Definition good_timeout (src : srcp) (c : cfg) (x : ist) : bool :=
   implb' (parked s && no_defect s && negb (c_oneway c)) (global_armed s || match try_armed s with Some _ => true | None => false end) &&
   implb' (parked s && global_armed s && negb (received s) && negb (down_reset s) && negb (up_reset s) && negb (direct s) &&
           has_upreq s && (match c_send c with [] => true | _ => false end))
-         (let '(s1, o1) := env_step c EvGlobal s in
+         (let '(s1, o1) := env_step src c EvGlobal s in
           let '(s2, g2) := run_worker_n src c 40 (s1, gs_outs g o1) in
           wdone s2 && cleaned s2 && g_ended g2 && match g_reply_kind g2 with Some (KHijack, 504) => true | _ => false end).
 
@@ -136,7 +143,7 @@ Definition good_c14_reply (c : cfg) (x : ist) : bool :=
           match g_reply_kind g with Some (KUp, _) => false | Some _ => true | None => false end).
 
 Definition good_all (src : srcp) (c : cfg) (x : ist) : bool :=
-  good_c03 c x && good_timeout src c x && good_c10_gauge c x && good_c10_res c x && good_c14 c x && good_c14_reply c x &&
+  good_c03 c x && good_timeout src c x && good_c10_gauge c x && good_c10_res c x && good_c10_streams c x && good_c14 c x && good_c14_reply c x &&
   good_c17 src c x.
 
 (* ---------- configuration families ---------- *)
